@@ -40,6 +40,9 @@ enum Mode {
 enum Own {
     C01,
     C02,
+    /// a C02 oracle whose evidence rests on the delivery model (what is still in a buffer / the
+    /// history): only reported if a control run confirms that delivery agrees with the model
+    C02Delivery,
     C08,
     Any,
 }
@@ -156,49 +159,89 @@ fn send_site(c: &Cfg, what: &str) -> String {
 
 impl H {
     /// An oracle failed. Reports it if it belongs to the selected property; otherwise the
-    /// execution is ended quietly. A delivery disagreement under C08 is a side effect of the limit
-    /// probes iff the same operations without probes agree with the model.
+    /// execution is ended quietly.
     fn flag(&self, s: &mut Sys, own: Own, tag: &str, site: &str, detail: String) -> Result<(), Fail> {
-        let mine = match own {
-            Own::Any => true,
-            Own::C01 => s.mode == Mode::C01,
-            Own::C02 => s.mode == Mode::C02,
-            Own::C08 => s.mode == Mode::C08,
-        };
-        if mine && !s.control {
-            return Err(Fail::new(tag, site.to_string(), detail));
+        if s.control {
+            s.diverged = true;
+            return Ok(());
         }
-        if own == Own::C01 && s.mode == Mode::C08 && !s.control && !s.in_finish {
-            let ops = s.ops.clone();
-            if self.control_agrees(&s.cfg, &ops) {
+        match (own, s.mode) {
+            (Own::Any, _) | (Own::C01, Mode::C01) | (Own::C02, Mode::C02) | (Own::C08, Mode::C08) => Err(Fail::new(tag, site.to_string(), detail)),
+            (Own::C02Delivery, Mode::C02) => {
                 s.diverged = true;
-                return Err(Fail::new(
-                    "c08-side-effect",
-                    format!("{tag} only with limit probes: {site}"),
-                    format!("without the rejected calls the same operations agree with the model; with them: {detail}"),
-                ));
+                if !s.in_finish && self.control_agrees(&s.cfg, &s.ops.clone()) {
+                    Err(Fail::new(tag, site.to_string(), detail))
+                } else {
+                    Ok(())
+                }
+            }
+            (Own::C01, Mode::C08) => {
+                // a delivery disagreement under C08 is a side effect of the rejected calls iff the same
+                // operations without them agree with the model
+                s.diverged = true;
+                if !s.in_finish && self.control_agrees(&s.cfg, &s.ops.clone()) {
+                    Err(Fail::new(
+                        "c08-side-effect",
+                        format!("{tag} only with limit probes: {site}"),
+                        format!("without the rejected calls the same operations agree with the model; with them: {detail}"),
+                    ))
+                } else {
+                    Ok(())
+                }
+            }
+            _ => {
+                s.diverged = true;
+                Ok(())
             }
         }
-        s.diverged = true;
-        Ok(())
     }
 
+    /// Control run: the same operations on a fresh service without any probe, every delivery
+    /// observation compared with the model, and at the end every subscriber buffer drained and
+    /// compared. True iff real code and model agree throughout.
     fn control_agrees(&self, cfg: &Cfg, ops: &[Op]) -> bool {
-        let mut c = match self.build(cfg, true) {
-            Ok(c) => c,
-            Err(_) => return false,
-        };
-        let mut ok = !c.diverged;
-        for op in ops {
-            if !ok {
-                break;
+        let r = std::panic::catch_unwind(std::panic::AssertUnwindSafe(|| {
+            let mut c = match self.build(cfg, true) {
+                Ok(c) => c,
+                Err(_) => return false,
+            };
+            let mut ok = !c.diverged;
+            for op in ops {
+                if !ok {
+                    break;
+                }
+                ok = self.step(&mut c, op).is_ok() && !c.diverged;
             }
-            ok = self.step(&mut c, op).is_ok() && !c.diverged;
+            if ok {
+                ok = self.drain_and_compare(&mut c).is_ok() && !c.diverged;
+            }
+            if let Some(r) = c.real.take() {
+                let _ = r.finish();
+            }
+            ok
+        }));
+        r.unwrap_or(false)
+    }
+
+    fn drain_and_compare(&self, c: &mut Sys) -> Result<(), Fail> {
+        for j in c.m.alive_subs() {
+            self.check_has_samples(c, j, "control")?;
+            while !c.diverged && !c.m.s(j).held.is_empty() {
+                self.do_drop_sample(c, j, 0)?;
+            }
+            for _ in 0..64 {
+                if c.diverged {
+                    return Ok(());
+                }
+                let done = c.m.recv_expect(&c.cfg, j, false) == RecvExpect::None;
+                self.do_receive(c, j)?;
+                if done || c.diverged || c.m.s(j).held.is_empty() {
+                    break;
+                }
+                self.do_drop_sample(c, j, 0)?;
+            }
         }
-        if let Some(r) = c.real.take() {
-            let _ = r.finish();
-        }
-        ok
+        Ok(())
     }
 
     fn build(&self, cfg: &Cfg, control: bool) -> Result<Sys, Fail> {
@@ -311,7 +354,8 @@ impl H {
             .filter(|(_, info)| info.pub_inst == pub_inst && info.addr == Some(addr))
             .find_map(|(&q, _)| s.m.holders(q).first().map(|h| (q, *h)));
         if let Some((q, holder)) = clash {
-            flag!(self, s, Own::C02, "c02-chunk-reused", format!("{what}: chunk still referenced by: {holder}"), "the payload address handed out is the one of sample #{q}, which is still referenced ({:?})", s.m.holders(q));
+            let own = if holder == "undelivered buffer entry" || holder == "history" { Own::C02Delivery } else { Own::C02 };
+            flag!(self, s, own, "c02-chunk-reused", format!("{what}: chunk still referenced by: {holder}"), "the payload address handed out is the one of sample #{q}, which is still referenced ({:?})", s.m.holders(q));
         }
         Ok(())
     }
@@ -812,6 +856,9 @@ impl H {
             }
             match s.real().receive(j) {
                 Err(ReceiveError::ExceedsMaxBorrows) => {}
+                Ok(None) => {
+                    flag!(self, s, Own::C01, "c01-lost-sample", "receive returned nothing (borrow limit probe)", "the model has samples pending for this subscriber, receive returned None");
+                }
                 other => {
                     let site = if per_connection_room {
                         "Receive beyond subscriber_max_borrowed_samples accepted: samples of another publisher pending"
@@ -967,7 +1014,7 @@ impl Harness for H {
     }
 
     fn new_sys(&self, cfg: &Cfg) -> Result<Sys, Fail> {
-        self.build(cfg, false)
+        no_panic("start prefix", || self.build(cfg, false))
     }
 
     fn enabled(&self, s: &Sys) -> Vec<Op> {
@@ -1063,10 +1110,29 @@ impl Harness for H {
 
     fn apply(&self, s: &mut Sys, op: &Op) -> Result<(), Fail> {
         s.ops.push(op.clone());
-        self.step(s, op)
+        no_panic(&format!("{op:?}"), || self.step(s, op))
     }
 
-    fn finish(&self, mut s: Sys) -> Result<(), Fail> {
+    fn finish(&self, s: Sys) -> Result<(), Fail> {
+        no_panic("finish", move || self.finish_inner(s))
+    }
+
+    fn model_key(&self, s: &Sys) -> u64 {
+        seqx::hash_of(&(s.m.canonical(), s.diverged))
+    }
+
+    fn nontrivial(&self, s: &Sys) -> bool {
+        s.m.sends > 0 || !s.ops.is_empty()
+    }
+
+    fn max_violations_per_worker(&self) -> usize {
+        // findings on the unchanged tree must not stop the exploration of the other sequences
+        200_000
+    }
+}
+
+impl H {
+    fn finish_inner(&self, mut s: Sys) -> Result<(), Fail> {
         s.in_finish = true;
         let mut verdict = Ok(());
         if !s.diverged && !s.control && s.mode == Mode::C08 {
@@ -1087,18 +1153,41 @@ impl Harness for H {
         }
         Ok(())
     }
+}
 
-    fn model_key(&self, s: &Sys) -> u64 {
-        seqx::hash_of(&(s.m.canonical(), s.diverged))
-    }
-
-    fn nontrivial(&self, s: &Sys) -> bool {
-        s.m.sends > 0 || !s.ops.is_empty()
-    }
-
-    fn max_violations_per_worker(&self) -> usize {
-        // findings on the unchanged tree must not stop the exploration of the other sequences
-        200_000
+/// A panic of the code under test (fatal_panic!, debug_assert!) is a violation; its message
+/// contains ids and addresses that differ between processes, so only its stable part is kept.
+fn no_panic<R>(site: &str, f: impl FnOnce() -> Result<R, Fail>) -> Result<R, Fail> {
+    match std::panic::catch_unwind(std::panic::AssertUnwindSafe(f)) {
+        Ok(r) => r,
+        Err(p) => {
+            let msg = if let Some(s) = p.downcast_ref::<&str>() {
+                s.to_string()
+            } else if let Some(s) = p.downcast_ref::<String>() {
+                s.clone()
+            } else {
+                "panic with non-string payload".to_string()
+            };
+            let tail: String = {
+                let chars: Vec<char> = msg.chars().collect();
+                chars[chars.len().saturating_sub(220)..].iter().collect()
+            };
+            let mut clean = String::new();
+            let mut digits = 0;
+            for c in tail.chars() {
+                if c.is_ascii_digit() {
+                    digits += 1;
+                    if digits == 1 {
+                        clean.push('#');
+                    }
+                } else {
+                    digits = 0;
+                    clean.push(c);
+                }
+            }
+            let site_kind: String = site.chars().take_while(|c| c.is_alphabetic() || *c == ' ').collect();
+            Err(Fail::new("panic", format!("panic in {site_kind}"), format!("...{clean}")))
+        }
     }
 }
 
